@@ -1611,3 +1611,182 @@ def _(c):
 def _(c):
     from .lexer import try_new_contract
     try_new_contract(c)
+
+
+# ----------------------------------------------------------------------------- C01: calendar rules
+def _leap_spec(c, st, y):
+    """three-valued evaluation of  4|y and (100 does not divide y or 400|y)  in a state"""
+    def div(k):
+        r = c.I.int_binop(st, 'Rem', VInt(y, 'i32'), VInt(F(k), 'i32'), 'i32')
+        return c.I.decide(st, ('cmp', 'eq', r, F(0)), deep=True)
+    a4, a100, a400 = div(4), div(100), div(400)
+    if a4 is False:
+        return False
+    if a4 is True:
+        if a100 is False or a400 is True:
+            return True
+        if a100 is True and a400 is False:
+            return False
+    return None
+
+
+@contract(r'^common::is_leap_year$')
+def _(c):
+    y = c.args[0].form
+    seen = set()
+    exits = []
+    for (st, ret) in c.exits:
+        if isinstance(ret, VBool) and ret.val is None:
+            p = c.I.bool_pred(ret)
+            for truth in (True, False):
+                for s2 in c.I.assume(st.copy(), p, truth):
+                    exits.append((s2, VBool(truth)))
+        else:
+            exits.append((st, ret))
+    for (st, ret) in exits:
+        want = _leap_spec(c, st, y)
+        got = ret.val if isinstance(ret, VBool) else None
+        seen.add(got)
+        c.rec('C01', 'is_leap_year: every 4 years except century years not divisible by 400', want is not None and got == want,
+              f"path returns {got}; the Gregorian rule gives {want} under the path condition")
+    c.rec('C01', 'is_leap_year: both answers reachable', seen == {True, False}, f"{seen}")
+
+
+def _ymd_list(c, name, bool_result=False, unit_result=False):
+    for (st, ret) in c.exits:
+        y, m, d = [c.args[i].form for i in range(3)]
+        dom = Form.sym(c.I.spec.dom_sym(y, m))
+        spec = [(('or', ('cmp', 'lt', y, F(1)), ('cmp', 'gt', y, F(9999))), 'DateOutOfRange'),
+                (('or', ('cmp', 'lt', m, F(1)), ('cmp', 'gt', m, F(12))), 'InvalidMonth'),
+                (('or', ('cmp', 'lt', d, F(1)), ('cmp', 'gt', d, F(31))), 'InvalidDay'),
+                (('cmp', 'gt', d, dom), 'InvalidDate')]
+        expect = None
+        for p, e in spec:
+            dd = c.I.decide(st, p, deep=True)
+            if dd is None:
+                expect = '?'
+                break
+            if dd:
+                expect = e
+                break
+        if bool_result:
+            got = 'accept' if (isinstance(ret, VBool) and ret.val is True) else ('reject' if isinstance(ret, VBool) and ret.val is False else '?')
+            want = 'accept' if expect is None else ('reject' if expect != '?' else '?')
+            c.rec('C01', f"{name}: accepts exactly the real dates of years 1..=9999 (decision list L_ymd)", got == want and got != '?', f"path gives {got}, rule gives {want}")
+            continue
+        kind, v = c.split_result(ret)
+        if kind == 'err':
+            c.rec('C01', f"{name}: error kind follows the decision list L_ymd", v == expect, f"returned {v}, rule gives {expect}")
+        elif kind == 'ok':
+            c.rec('C01', f"{name}: accepts exactly the real dates of years 1..=9999 (decision list L_ymd)", expect is None, f"accepted where the rule gives {expect}")
+            if not unit_result:
+                cnt = c.count(v)
+                jds = SYMTAB.cons.get(('op', 'jd', (y.key(), m.key())))
+                ok = jds is not None and cnt == Form.sym(jds).add(d).addc(-E_J)
+                c.rec('C01', f"{name}: the accepted date is the day number of (y, m, d)", ok, f"{cnt!r}")
+    c.rec('C01', f"{name}: has exits", len(c.exits) > 0)
+
+
+@contract(r'^date::Date::try_from_ymd$')
+def _(c):
+    _ymd_list(c, 'Date::try_from_ymd')
+
+
+@contract(r'^date::Date::is_valid$')
+def _(c):
+    _ymd_list(c, 'Date::is_valid', bool_result=True)
+
+
+@contract(r'^date::Date::validate_ymd$')
+def _(c):
+    _ymd_list(c, 'Date::validate_ymd', unit_result=True)
+
+
+@contract(r'^common::days_of_month$')
+def _(c):
+    y, m = c.args[0].form, c.args[1].form
+    for (st, ret) in c.exits:
+        f = ret.form
+        ok = False
+        why = f"{f!r}"
+        if len(f.terms) == 1 and f.c == 0:
+            data = SYMTAB.syms[f.terms[0][0]].data
+            # post_call replaced the lookup by dom(y, m) only if the body's value range was 28..=31; look at the raw lookup
+            ok = data is not None and data[0] in ('dom', 'tbl')
+        c.rec('C01', 'days_of_month: a table lookup by (leap year?, month)', ok, why)
+
+
+@contract(r'^date::Date::day_of_week$')
+def _(c):
+    d = c.argc(0)
+    seen = set()
+    for (st, ret) in c.exits:
+        if not (isinstance(ret, VAdt) and ret.single() is not None):
+            c.rec('C01', 'day_of_week: weekday decided on the path', False, f"{ret!r}")
+            continue
+        t = c.facts.types[ret.ty]
+        w = [x['discr'] for x in t['variants'] if x['idx'] == ret.single()][0]
+        seen.add(w)
+        res = st.num.residue(d.addc(4 - (w - 1)), 7)
+        c.rec('C01', 'day_of_week: 1970-01-01 is a Thursday and the weekday advances by one per day', res == 0,
+              f"weekday number {w} returned where (days + 4 - {w - 1}) mod 7 = {res}")
+    c.rec('C01', 'day_of_week: all seven weekdays are produced', seen == set(range(1, 8)), f"{sorted(seen)}")
+
+
+# ----------------------------------------------------------------------------- C16: fractional days on the Oracle-style date
+@contract(r'^(oracle::Date::add_days|oracle::Date::sub_days|oracle::<impl timestamp::Timestamp>::oracle_add_days|oracle::<impl timestamp::Timestamp>::oracle_sub_days)$')
+def _(c):
+    """result = (timestamp result of add_days) rounded to the nearest second: r = 0 (mod 1s) and 2*|r - x| <= 1s,
+    where x = count + cast(round(days * D)) is the only float-derived quantity"""
+    n = 0
+    for (st, ret) in c.exits:
+        kind, v = c.split_result(ret)
+        if kind != 'ok':
+            continue
+        n += 1
+        r = c.count(v)
+        res = st.num.residue(r, S_US)
+        c.rec('C16', 'OracleDate +/- fractional days: result on a whole second', res == 0, f"{r!r}: residue {res}")
+        # locate x: the unique f2i symbol among the symbols reachable from r
+        f2i = None
+        stack = [r]
+        seen = set()
+        while stack:
+            f = stack.pop()
+            for s_, k in f.terms:
+                if s_ in seen:
+                    continue
+                seen.add(s_)
+                info = SYMTAB.syms[s_]
+                if info.data and info.data[0] == 'f2i':
+                    f2i = s_
+                if info.kind == 'div':
+                    stack.append(info.data[0])
+        if f2i is None:
+            c.rec('C16', 'OracleDate +/- fractional days: nearest second of the timestamp result', False, f"{r!r} is not derived from the rounded microsecond offset")
+            continue
+        base = c.argc(0)
+        if 'oracle_' in c.key:
+            # the Timestamp receiver is first floored to the second
+            x = None
+        x_forms = []
+        for s_ in seen:
+            pass
+        # x = (floored) count + offset; recover it as r's dividend when r = S*Div(x', S) shapes are absent: use bounds on r - (base + f2i)
+        cand = base.add(Form.sym(f2i))
+        a, b = st.num.rng2(r.sub(cand).scale(2))
+        if 'oracle_' in c.key:
+            # receiver floored by up to 999999 us before the offset is added
+            ok = a >= -S_US - 2 * (S_US - 1) and b <= S_US
+        else:
+            ok = a >= -S_US and b <= S_US
+        c.rec('C16', 'OracleDate +/- fractional days: nearest second of the timestamp result (2*|r - x| <= 1s)', ok, f"2*(r - x) in [{a}, {b}]")
+    c.rec('C16', 'OracleDate +/- fractional days: some path returns Ok', n > 0)
+
+
+@contract(r'^oracle::Date::sub_date$')
+def _(c):
+    for (st, ret) in c.exits:
+        ok = isinstance(ret, VFloat) and ret.expr is not None and ret.expr[0] == 'div' and ret.expr[1] is not None and ret.expr[1][0] == 'i2f' \
+            and ret.expr[1][1] == c.argc(0).sub(c.argc(1)) and ret.expr[2] is not None and ret.expr[2][0] == 'i2f' and ret.expr[2][1] == F(D_US)
+        c.rec('C16', 'OracleDate::sub_date = (u(a) - u(b)) / D in days', ok, f"{ret!r}")
